@@ -249,6 +249,13 @@ func cmdCheck(argv []string) int {
 			}
 		}
 		results := runJobs(l, fn, g, argLists, *tier, *verbose)
+		// solver cross-check: the cheapest completed jobs of the group are explored again with other SMT
+		// solvers; the set of feasible paths (count per outcome) must be identical
+		for _, d := range crossCheck(l, fn, g, results, *tier) {
+			inconclusive = append(inconclusive, d)
+		}
+		ev.CrossJobs += crossJobs
+		crossJobs = 0
 		// post-process
 		twinSeen := false
 		for _, jr := range results {
@@ -469,6 +476,73 @@ func runJobs(l *Loaded, fn *ssa.Function, g *JobGroup, argLists [][]int64, tier 
 	}
 	wg.Wait()
 	return results
+}
+
+var crossJobs int
+
+// crossCheck re-explores up to k completed jobs of a group with the other installed solvers (z3 5.1.0, and
+// cvc5 1.0 in the thorough tier) and reports every difference in the number of feasible paths per outcome.
+func crossCheck(l *Loaded, fn *ssa.Function, g *JobGroup, results []jobResult, tier string) []string {
+	if os.Getenv("VERIF_NO_CROSSCHECK") != "" {
+		return nil
+	}
+	k, limit := 1, int64(3000)
+	solvers := []string{"z3-new"}
+	if tier == "thorough" {
+		k, limit = 3, 30000
+		solvers = []string{"z3-new", "cvc5"}
+	}
+	idx := []int{}
+	for i, jr := range results {
+		r := jr.res
+		if r == nil || r.Incomplete != "" || r.Unknowns > 0 || r.Paths == 0 || r.Paths > limit {
+			continue
+		}
+		idx = append(idx, i)
+	}
+	sort.SliceStable(idx, func(a, b int) bool { return results[idx[a]].res.Paths > results[idx[b]].res.Paths })
+	// the largest jobs under the limit say the most
+	if len(idx) > k {
+		idx = idx[:k]
+	}
+	var out []string
+	for _, i := range idx {
+		jr := results[i]
+		args, err := intArgs(fn, jr.args)
+		if err != nil {
+			continue
+		}
+		for _, sv := range solvers {
+			if !checkDeadline.IsZero() && time.Now().After(checkDeadline) {
+				return out
+			}
+			budget := g.Budget
+			if budget == 0 {
+				budget = 20_000_000
+			}
+			dl := time.Now().Add(10 * time.Minute)
+			if !checkDeadline.IsZero() && checkDeadline.Before(dl) {
+				dl = checkDeadline
+			}
+			res := Explore(l.prog, fn, args, ExploreOpts{Workers: runtime.NumCPU(), Solver: sv, TimeoutMs: 60000, Budget: budget, MaxPaths: g.MaxPaths, MaxFailures: 5000, Deadline: dl})
+			crossJobs++
+			if res.Incomplete != "" || res.Unknowns > 0 {
+				// the second solver could not finish: nothing to compare (not counted as agreement)
+				crossJobs--
+				continue
+			}
+			same := res.Paths == jr.res.Paths && len(res.Counts) == len(jr.res.Counts)
+			for kk, v := range jr.res.Counts {
+				if res.Counts[kk] != v {
+					same = false
+				}
+			}
+			if !same {
+				out = append(out, fmt.Sprintf("SOLVER-DISAGREEMENT %s%v: z3 4.8.12 paths=%d %v, %s paths=%d %v", g.Name, jr.args, jr.res.Paths, jr.res.Counts, sv, res.Paths, res.Counts))
+			}
+		}
+	}
+	return out
 }
 
 // ---- native replay ----
